@@ -228,7 +228,10 @@ def execute(box, lines, direct, fresh=False):
     s = box.session(fresh)
     r = H.run(s, b'LOCATE 1,1:ON ERROR GOTO 0:NEW')
     if r.exc is not None or r.err is not None:
-        raise CheckError('NEW failed %r' % (r,))
+        s = box.session(True)
+        r = H.run(s, b'LOCATE 1,1:ON ERROR GOTO 0:NEW')
+        if r.exc is not None or r.err is not None:
+            raise CheckError('NEW failed on a fresh session %r' % (r,))
     for l in lines:
         r = H.run(s, l)
         if r.exc is not None:
